@@ -73,11 +73,27 @@ func (w *World) verifyLemma(l *Lemma) (res *FnResult) {
 	for _, u := range l.Uses {
 		_ = u
 	}
+	// assumptions over the variables come first (they may be needed for the preconditions of
+	// the uses); those that mention results of uses are taken after the uses
+	var later []*Clause
 	for _, a := range l.Assumes {
-		x.em.Assert(fr.evalBool(a.Expr, env))
+		func() {
+			defer func() {
+				if r := recover(); r != nil {
+					if _, ok := r.(specFail); !ok {
+						panic(r)
+					}
+					later = append(later, a)
+				}
+			}()
+			x.em.Assert(fr.evalBool(a.Expr, env))
+		}()
 	}
 	for _, u := range l.UseStmts {
 		fr.lemmaUse(u, env)
+	}
+	for _, a := range later {
+		x.em.Assert(fr.evalBool(a.Expr, env))
 	}
 	for i, s := range l.Shows {
 		fr.oblige("lemma", l.Name+":"+s.label(i), fr.evalBool(s.Expr, env), s.Src)
